@@ -17,6 +17,21 @@
 
 using namespace dispenso;
 
+// environment contracts (identical definitions are used by the solver run and by the native replay):
+// small-buffer allocator = malloc/free of the block size (the real allocator is property C39/C41),
+// registerFineSchedulerQuanta = no-op (Windows timer resolution)
+namespace dispenso {
+namespace detail {
+char* allocSmallBufferImpl(size_t ordinal) {
+  return static_cast<char*>(::malloc(size_t{4} << ordinal));
+}
+void deallocSmallBufferImpl(size_t, void* buf) {
+  ::free(buf);
+}
+void registerFineSchedulerQuanta() {}
+}  // namespace detail
+}  // namespace dispenso
+
 static const int kMaxIds = 8;
 static int g_runs[kMaxIds];
 static int g_submitted;  // ids 0..g_submitted-1 were handed to the pool
@@ -161,6 +176,8 @@ extern "C" void vf_main() {
 #endif
 
   never_twice();
+#ifndef VF_NODTOR
   delete pool;
   ledger_after_destructor();
+#endif
 }
